@@ -1042,21 +1042,6 @@ impl<'a> Gen<'a> {
             };
             rs.push(r);
         }
-        // generation filter (C02 territory, see requests/C18.md): inside a function, an id that the
-        // statement binds through a map-pattern entry and also reads on its right-hand side is not
-        // captured from the enclosing frame by the real parser ("'a' not found")
-        let map_bound: Vec<Name> = ts
-            .iter()
-            .filter_map(|t| if let Target::Map(es) = t { Some(es.iter().filter_map(|e| e.target).collect::<Vec<_>>()) } else { None })
-            .flatten()
-            .collect();
-        for r in rs.iter_mut() {
-            if let Rhs::Ref(k) = r {
-                if map_bound.contains(k) {
-                    *r = Rhs::Lit(self.rng.range(-3, 40));
-                }
-            }
-        }
         Act::Pat(exp, ts, rs)
     }
 
